@@ -136,7 +136,14 @@ class Step:
                 aggregations[expression] = None
 
             for agg in agg_funcs:
+                agg_operands = []
                 for operand in agg.unnest_operands():
+                    # DISTINCT dedupes the aggregated values, it isn't a per-row computation
+                    agg_operands.extend(
+                        operand.expressions if isinstance(operand, exp.Distinct) else [operand]
+                    )
+
+                for operand in agg_operands:
                     if isinstance(operand, exp.Column):
                         continue
                     if operand not in operands:
